@@ -117,13 +117,14 @@ fn render_game(g: &RawGame) -> (GameSpec, String) {
             Some(match g.style {
                 1 => format!(" [%clk 0:{:02}:{:02}] ", 5 - (i / 30).min(5), 59 - i % 60),
                 2 => format!(" [%eval {}.{}] [%clk 0:00:{:02}] ", (salt % 9) as i32 - 4, salt / 9 % 100, salt / 900 % 60),
-                _ => {
-                    if salt % 3 == 0 {
-                        " book move ".to_string()
-                    } else {
-                        String::new()
-                    }
-                }
+                _ => match salt % 6 {
+                    0 | 1 => " book move ".to_string(),
+                    // an empty and a blank comment: tokenising must survive them (whether they are yielded as an empty
+                    // comment or as no comment is not fixed by the property: both are accepted below)
+                    2 => "\u{1}".to_string(),
+                    3 => "\u{2}".to_string(),
+                    _ => String::new(),
+                },
             })
         } else {
             None
@@ -137,6 +138,12 @@ fn render_game(g: &RawGame) -> (GameSpec, String) {
             parts.push(format!("{number}..."));
         }
         parts.push(san.clone());
+        // (markers \u{1} / \u{2} stand for `{}` and `{ }`)
+        let comment = comment.map(|c| match c.as_str() {
+            "\u{1}" => String::new(),
+            "\u{2}" => " ".to_string(),
+            _ => c,
+        });
         if let Some(c) = &comment {
             parts.push(format!("{{{c}}}"));
         }
@@ -244,8 +251,10 @@ pub fn check_db(d: &Db, ctx: &mut Ctx) -> Result<(), String> {
         if *tags != want_tags {
             return Err(format!("game #{}: tag pairs {:?}, written {:?}; {what}", i + 1, tags, want_tags));
         }
-        if *moves != w.moves {
-            let k = moves.iter().zip(&w.moves).position(|(a, b)| a != b).unwrap_or(moves.len().min(w.moves.len()));
+        // a blank comment may be yielded as it is or as "no comment"
+        let same = |a: &(String, Option<String>), b: &(String, Option<String>)| a.0 == b.0 && (a.1 == b.1 || (b.1.as_deref().map_or(false, |t| t.trim().is_empty()) && a.1.is_none()));
+        if moves.len() != w.moves.len() || !moves.iter().zip(&w.moves).all(|(a, b)| same(a, b)) {
+            let k = moves.iter().zip(&w.moves).position(|(a, b)| !same(a, b)).unwrap_or(moves.len().min(w.moves.len()));
             return Err(format!("game #{}: {} moves yielded, {} written; first difference at move index {k}: yielded {:?}, written {:?}; {what}", i + 1, moves.len(), w.moves.len(), moves.get(k), w.moves.get(k)));
         }
         // replay on a board
@@ -299,9 +308,11 @@ pub fn check_db(d: &Db, ctx: &mut Ctx) -> Result<(), String> {
                     ctx.class("castling");
                 }
             }
+            if c.as_deref().map_or(false, |t| t.trim().is_empty()) {
+                ctx.class("blank_comment");
+            }
             if c.is_some() {
                 ctx.class("commented_move");
-                break;
             }
         }
     }
